@@ -678,4 +678,50 @@ theorem findPath_none (sep : Str) (anc : List Str) (t : Tree) (q : Str) :
       rw [List.filter_eq_nil_iff]
       intro w hw; simpa using h w hw
     rw [this]
+/-! ## 8. order and multiplicity of the kept nodes -/
+
+mutual
+theorem keptAddrs_sublist (keep : Addr → Bool) : ∀ (t : Tree) (a : Addr),
+    (keptAddrs keep a t).Sublist (addrs a t)
+  | .node i n av cs, a => by
+    simp only [addrs, keptAddrs]
+    exact List.Sublist.cons_cons _ (keptAddrsL_sublist keep cs a 0)
+theorem keptAddrsL_sublist (keep : Addr → Bool) : ∀ (cs : List Tree) (a : Addr) (k : Nat),
+    (keptAddrsL keep a k cs).Sublist (keptAddrsL (fun _ => true) a k cs)
+  | [], _, _ => by simp [keptAddrsL]
+  | c :: cs, a, k => by
+    have h1 := keptAddrs_sublist keep c (a ++ [k])
+    have h2 := keptAddrsL_sublist keep cs a (k + 1)
+    unfold addrs at h1
+    simp only [keptAddrsL, if_true]
+    split
+    · exact List.Sublist.append h1 h2
+    · exact h2.trans (List.sublist_append_right _ _)
+end
+
+mutual
+theorem addrs_nodup : ∀ (t : Tree) (a : Addr), (addrs a t).Nodup
+  | .node i n av cs, a => by
+    simp only [addrs, keptAddrs, List.nodup_cons]
+    refine ⟨?_, addrsL_nodup cs a 0⟩
+    intro h
+    obtain ⟨k', _, hk⟩ := keptAddrsL_prefix _ cs a 0 a h
+    have := hk.length_le
+    simp only [List.length_append, List.length_singleton] at this
+    omega
+theorem addrsL_nodup : ∀ (cs : List Tree) (a : Addr) (k : Nat), (keptAddrsL (fun _ => true) a k cs).Nodup
+  | [], _, _ => by simp [keptAddrsL]
+  | c :: cs, a, k => by
+    have h1 := addrs_nodup c (a ++ [k])
+    unfold addrs at h1
+    simp only [keptAddrsL, if_true]
+    rw [List.nodup_append]
+    refine ⟨h1, addrsL_nodup cs a (k + 1), ?_⟩
+    intro x hx y hy e
+    subst e
+    have p1 := keptAddrs_prefix _ c (a ++ [k]) x hx
+    obtain ⟨k', hk, p2⟩ := keptAddrsL_prefix _ cs a (k + 1) x hy
+    have := snoc_prefix_inj p1 p2
+    omega
+end
 end Helper
